@@ -1047,6 +1047,11 @@ moqQUICAddress: :%d
 		runHistory("single", [][]string{vC13Groups[gi]})
 	}
 
+	// 2a. one server switched off, then on again (small replays for guard defects)
+	for _, f := range []string{"RTSP", vPick(r, vC13Flags)} {
+		runHistory("flip", [][]string{{f}, {f}})
+	}
+
 	// 2. histories: several groups at once; servers switched off and on again
 	nh := 2 + n/14
 	for h := 0; h < nh; h++ {
@@ -1108,6 +1113,9 @@ moqQUICAddress: :%d
 						isGuard = true
 					}
 				}
+			}
+			if f == "AuthMethod" { // a mode other parameters' validity depends on
+				isGuard = true
 			}
 			if isGuard { // restore: the component comes back / the mode returns
 				init := s.begin()
